@@ -204,13 +204,7 @@ def run(ctx):
     k27 = c27.cases(ctx.tier, ctx.seed)
     if ctx.quick:
         k27 = k27[ctx.seed % 4::4]
-    import re
-    # shifts by a negative or huge constant count are undefined (gcc flags them): not valid inputs, and arbitrarily costly to evaluate
-    bad_shift = re.compile(r"(<<|>>) (\(-|\(\(|[0-9]{3,}|'a')")
-    # a division whose divisor is not a non-zero literal may divide by zero (gcc flags it): not a valid input either
-    good_div = re.compile(r"(/|%) ([1-9]|\(-[1-9]|\(\((signed|unsigned)|'a')")
-    any_div = re.compile(r"(/|%) ")
-    k27 = [c for c in k27 if not bad_shift.search(c["expr"]) and len(any_div.findall(c["expr"])) == len(good_div.findall(c["expr"]))]
+    # undefined constant expressions (division by zero, shift counts out of range) are syntactically valid: they must end in a diagnostic
     cs += [("C27/" + c["fam"] + "/" + c["feat"], c["src"].replace("@", "_0")) for c in k27]
     cs += decl_menu()
     ctx.note("c_units", len(cs))
